@@ -373,6 +373,13 @@ func (c *Collection) WriteCas(key string, exp Exp, cas CAS, val any, opt sgbucke
 		if err != nil {
 			return nil, err
 		}
+		if (opt & sgbucket.Append) != 0 {
+			// The event describes the whole document, not just the appended bytes:
+			row := txn.QueryRow(`SELECT value FROM documents WHERE collection=?1 AND key=?2`, c.id, key)
+			if err = scan(row, &raw); err != nil {
+				return nil, err
+			}
+		}
 		casOut = newCas
 		return &event{
 			key:        key,
